@@ -599,7 +599,7 @@ func runC05(cfg *vh.Config) error {
 				class = fail[:k]
 			}
 			res.Count("scope:" + class)
-			res.Fail(vh.Failure{Case: caseNo, Stream: "scope", Sig: "C05 type name shortened by contextRefName " + class, Clause: "same fields (type)", Input: sc, Got: fail})
+			res.Fail(vh.Failure{Case: caseNo, Stream: "scope", Sig: "C05 type name printed by contextRefName " + class, Clause: "same fields (type)", Input: sc, Got: fail})
 		}
 		if out != nil {
 			cf.Terms = append(cf.Terms, out.term)
